@@ -525,6 +525,27 @@ def _is_zero_fill_closure(cl):
     return None
 
 
+def let_env(fn, stmts=None):
+    """{name: initialiser} of the `let` statements of a function body (or of `stmts`), for rules that read a value through its name.
+    A name that is assigned again anywhere in the function (`x = ..`, `x += ..`, or handed out as `&mut x`) is left out - its initialiser is
+    not its value - and a re-assigned *parameter* makes every reading by name stale: fail closed.  (Re-binding by `let` cannot confuse the
+    collection: the normaliser gives every binding a name of its own.)"""
+    assigned = set()
+    for x in walk(fn["body"]):
+        if x.get("k") in ("assign", "opassign") and isinstance(x.get("l"), dict) and x["l"].get("k") == "path":
+            assigned.add(x["l"]["p"])
+        if x.get("k") == "ref" and x.get("mut") and isinstance(x.get("e"), dict) and x["e"].get("k") == "path":
+            assigned.add(x["e"]["p"])
+    bad = sorted(p_.get("name") for p_ in fn["params"] if p_.get("name") in assigned)
+    if bad:
+        raise AnchorMissing("%s: parameter(s) %s are assigned in the body; the rules read them as the caller's values" % (fn["name"], bad))
+    env = {}
+    for s in (stmts if stmts is not None else fn["body"]["stmts"]):
+        if s.get("k") == "let" and s["pat"].get("k") == "pident" and s.get("init") is not None and s["pat"]["name"] not in assigned:
+            env[s["pat"]["name"]] = s["init"]
+    return env
+
+
 def resolve_let(fn, e, depth=3):
     """follow a mention of an immutable `let` local to its initialiser (the caller must know that what the initialiser reads cannot change in between)"""
     while depth > 0 and isinstance(e, dict) and e.get("k") == "path" and "::" not in e["p"]:
